@@ -53,7 +53,7 @@ void h_zeros(void){ full_check(1); }
 void h_ones(void){ full_check(2); }
 /* np.full_like / zeros_like / ones_like(a): shape of a (data irrelevant but symbolic) */
 static void like_check(int kind){
-  u64 shape[3] = {1,1,1}, idx[4], os[4] = {0}, od = 0; u32 data[CELLS], out = 7;
+  u64 shape[4] = {1,1,1,1}, idx[4], os[4] = {0}, od = 0; u32 data[CELLS], out = 7;
   in_shape(shape, DIM); in_data(data, NCELL);
   u32 value = in_any32();
   in_index(idx, shape, DIM, MAXE - 1);
